@@ -1,6 +1,6 @@
 //verif:package github.com/kstenerud/go-concise-encoding/internal/verifh/c24
 //verif:config cap=300 steps=400000000 timeout=120000 maxsec=1800
-//verif:bounds the real CTE decoder (ANTLR lexer, parser, listener executed by the engine) on documents holding one integer literal / one typed-array element whose digits are symbolic characters: optional '-', base prefix 0b/0o/0x in either case or none, 1 (quick) / 2 (thorough) digit characters of the base, optionally a '_' between two digits; array headers @u8 @u8b @u8o @u8x @i8 @i8x with one symbolic element digit; escapes \n \t \" \\ \[hh] with one symbolic hex digit
+//verif:bounds the real CTE decoder (ANTLR lexer, parser, listener executed by the engine) on documents holding one integer literal / one typed-array element whose digits are symbolic characters: optional '-', base prefix 0b/0o/0x in either case or none, 1 (quick) / 2 (thorough, bases 2, 8, 10) digit characters of the base, optionally a '_' between two digits; array headers @u8 @u8b @u8o @u8x @i8 @i8x with one symbolic element digit; escapes \n \t \" \\ \[hh] with one symbolic hex digit
 //verif:assume each symbolic character is enumerated at the lexer's table lookups (one path per value)
 package c24
 
@@ -61,8 +61,8 @@ func Verif_C24_LexedIntegerLiteral() {
 		text = append(text, '0', letter)
 	}
 	n := 1
-	if verifrt.Thorough() {
-		n = verifrt.Choice("digits", 2) + 1
+	if verifrt.Thorough() && base != 16 {
+		n = verifrt.Choice("digits", 2) + 1 // two hexadecimal digits (22 x 22 spellings per sign and prefix) do not fit the thorough budget
 	}
 	sep := n == 2 && verifrt.Choice("separator", 2) == 1
 	var want uint64
